@@ -1817,9 +1817,11 @@ fn check_should_abort(
     Ok(())
 }
 
-/// Verification hook (only with `--cfg fuellabs_sway_verif`): the calling thread's callback, if
+/// Verification hooks (only with `--cfg fuellabs_sway_verif`). The calling thread's callback, if
 /// one is installed, is called right before the compiler reads the language server's
-/// `retrigger_compilation` flag. Without a callback nothing happens.
+/// `retrigger_compilation` flag; a per-thread mask can switch off the abstract-instruction
+/// optimizer; a per-thread observer receives a plain-data dump of every register allocation.
+/// Without a callback / mask / observer nothing happens.
 #[cfg(fuellabs_sway_verif)]
 pub mod verif_hooks {
     use std::cell::RefCell;
@@ -1833,6 +1835,57 @@ pub mod verif_hooks {
         CALLBACK.with(|c| {
             if let Some(callback) = c.borrow().as_ref() {
                 callback(label);
+            }
+        });
+    }
+
+    // --- abstract-instruction optimizer switch (asm_generation/fuel/optimizations) -----------
+    // Bit 0 of the calling thread's mask skips `AbstractInstructionSet::optimize` altogether,
+    // bits 1..=7 skip one sub-pass each (in the order they are chained). Mask 0: no effect.
+    thread_local! {
+        static ASM_OPT_SKIP_MASK: std::cell::Cell<u32> = const { std::cell::Cell::new(0) };
+    }
+    pub fn set_asm_opt_skip_mask(mask: u32) {
+        ASM_OPT_SKIP_MASK.with(|m| m.set(mask));
+    }
+    pub fn asm_opt_skip_mask() -> u32 {
+        ASM_OPT_SKIP_MASK.with(|m| m.get())
+    }
+
+    // --- register allocation observer (asm_generation/fuel/register_allocator.rs) ------------
+    /// One virtual-register op of a function after coalescing and spilling, as plain data,
+    /// together with the machine registers the allocator chose.
+    #[derive(Debug, Clone, Default)]
+    pub struct RegAllocOp {
+        pub text: String,
+        pub comment: String,
+        pub allocated_text: String,
+        /// (register, is_virtual) defined / used by the op (the allocator's own def/use tables)
+        pub defs: Vec<(String, bool)>,
+        pub uses: Vec<(String, bool)>,
+        /// virtual register -> machine register, for every virtual register the op mentions
+        pub assignment: Vec<(String, String)>,
+        /// `Some(label)` if the op is a label
+        pub label: Option<String>,
+        /// `Some((kind, label))` for jumps to a label; kind is "always", "if-not-zero" or "call"
+        pub jump: Option<(String, String)>,
+        /// control never continues with the next op (RVRT, jump to an address, return from call)
+        pub no_fallthrough: bool,
+        /// `Some((dst, src))` for a register-to-register MOVE
+        pub mov: Option<(String, String)>,
+    }
+    pub type RegAllocObserver = Box<dyn Fn(&[RegAllocOp])>;
+    thread_local! {
+        static REGALLOC_OBSERVER: RefCell<Option<RegAllocObserver>> = const { RefCell::new(None) };
+    }
+    pub fn set_regalloc_observer(observer: Option<RegAllocObserver>) {
+        REGALLOC_OBSERVER.with(|o| *o.borrow_mut() = observer);
+    }
+    /// Calls the calling thread's observer, if any, with the dump `build` produces.
+    pub(crate) fn observe_regalloc(build: impl FnOnce() -> Vec<RegAllocOp>) {
+        REGALLOC_OBSERVER.with(|o| {
+            if let Some(observer) = o.borrow().as_ref() {
+                observer(&build());
             }
         });
     }
